@@ -73,4 +73,93 @@ theorem Quiet.adv {p p' : Pair} (h : Quiet p) (a : Adv p p') : Quiet p' := by
 theorem Quiet.faultAt {p : Pair} (h : Quiet p) (s : Side) (m : Meth) : (p.rep s).faultAt m = none :=
   h s m _ (Nat.le_refl _)
 
+/-! ## The calls into one replica, as equations -/
+
+theorem getOn_fst (s : Side) (p : Pair) (k : Key) : (getOn s p k).1 = p.setRep s ((p.rep s).bump .get) := by
+  unfold getOn; dsimp only
+  cases (p.rep s).faultAt .get <;> simp
+  cases (p.rep s).store k <;> simp
+
+theorem getOn_snd (s : Side) (p : Pair) (k : Key) : (getOn s p k).2 =
+    match (p.rep s).faultAt .get with
+    | some c => .error ⟨c, [], .fault s .get ((p.rep s).cnt .get)⟩
+    | none => match (p.rep s).store k with
+      | some v => .ok v
+      | none => .error ⟨nf, [], .absent s k⟩ := by
+  unfold getOn; dsimp only
+  cases (p.rep s).faultAt .get <;> simp
+  cases (p.rep s).store k <;> simp
+
+theorem getcOn_fst (s : Side) (p : Pair) (k : Key) : (getcOn s p k).1 = p.setRep s ((p.rep s).bump .getc) := by
+  unfold getcOn; dsimp only
+  cases (p.rep s).faultAt .getc <;> simp
+  cases (p.rep s).store k <;> simp
+
+theorem getcOn_snd (s : Side) (p : Pair) (k : Key) : (getcOn s p k).2 =
+    match (p.rep s).faultAt .getc with
+    | some c => .error ⟨c, [], .fault s .getc ((p.rep s).cnt .getc)⟩
+    | none => match (p.rep s).store k with
+      | some v => .ok v
+      | none => .error ⟨nf, [], .absent s k⟩ := by
+  unfold getcOn; dsimp only
+  cases (p.rep s).faultAt .getc <;> simp
+  cases (p.rep s).store k <;> simp
+
+theorem fmOn_fst (s : Side) (p : Pair) (ks : List Key) : (fmOn s p ks).1 = p.setRep s ((p.rep s).bump .fm) := by
+  unfold fmOn; dsimp only; split <;> rfl
+
+theorem fmOn_snd (s : Side) (p : Pair) (ks : List Key) : (fmOn s p ks).2 =
+    match (p.rep s).faultAt .fm with
+    | some c => .error ⟨c, [], .fault s .fm ((p.rep s).cnt .fm)⟩
+    | none => .ok (ks.filter fun k => ((p.rep s).store k).isNone) := by
+  unfold fmOn; dsimp only
+  cases (p.rep s).faultAt .fm <;> simp
+
+theorem capsOn_fst (s : Side) (p : Pair) : (capsOn s p).1 = p.setRep s ((p.rep s).bump .caps) := by
+  unfold capsOn; dsimp only; split <;> rfl
+
+theorem capsOn_snd (s : Side) (p : Pair) : (capsOn s p).2 =
+    match (p.rep s).faultAt .caps with
+    | some c => .error ⟨c, [], .fault s .caps ((p.rep s).cnt .caps)⟩
+    | none => .ok () := by
+  unfold capsOn; dsimp only
+  cases (p.rep s).faultAt .caps <;> simp
+
+/-- What `putOn` leaves in the replica it was called on. -/
+def putRep (r : Replica) (k : Key) (inp : Res Val) : Replica :=
+  match r.faultAt .put, inp with
+  | none, .ok v => (r.bump .put).write k v
+  | _, _ => r.bump .put
+
+theorem putOn_fst (s : Side) (p : Pair) (k : Key) (inp : Res Val) :
+    (putOn s p k inp).1 = p.setRep s (putRep (p.rep s) k inp) := by
+  unfold putOn putRep; dsimp only
+  split
+  · next c h => simp [h]
+  · next h => cases inp <;> simp [h]
+
+theorem putOn_snd (s : Side) (p : Pair) (k : Key) (inp : Res Val) : (putOn s p k inp).2 =
+    match (p.rep s).faultAt .put with
+    | some c => .error ⟨c, [], .fault s .put ((p.rep s).cnt .put)⟩
+    | none => match inp with
+      | .ok _ => .ok ()
+      | .error e => .error e := by
+  unfold putOn; dsimp only
+  split
+  · next c h => simp [h]
+  · next h => cases inp <;> simp [h]
+
+@[simp] theorem putRep_script (r : Replica) (k : Key) (inp : Res Val) : (putRep r k inp).script = r.script := by
+  unfold putRep; split <;> rfl
+
+theorem putRep_cnt (r : Replica) (k : Key) (inp : Res Val) : (putRep r k inp).cnt = (r.bump .put).cnt := by
+  unfold putRep; split <;> rfl
+
+/-- The store after `putOn`: written exactly when no fault fired and the input was readable. -/
+theorem putRep_store (r : Replica) (k : Key) (inp : Res Val) (k' : Key) : (putRep r k inp).store k' =
+    match r.faultAt .put, inp with
+    | none, .ok v => if k' = k then some v else r.store k'
+    | _, _ => r.store k' := by
+  unfold putRep; split <;> simp_all [store_write]
+
 end BB.Mirrored
